@@ -561,8 +561,16 @@ class ThrottleStreamIO(StreamIO):
     async def __aenter__(self):
         return self
 
-    async def __aexit__(self, *args):
+    async def __aexit__(self, exc_type, exc, tb):
         self.close()
+        if exc_type is None and self.write_timeout is not None:
+            # block left without an error: data written so far counts as
+            # sent only when it left, what a peer which does not read in
+            # time prevents (and close gives up on, silently)
+            await asyncio.wait_for(
+                self.writer.wait_closed(),
+                self.write_timeout,
+            )
 
     def iter_by_line(self):
         """
